@@ -23,7 +23,9 @@ func init() {
 		return runCatalog(g, id, append(g.walkObligations(), g.adapterShape()...))
 	}
 	auxEngines["C04"] = func(g *Gen, id, tier string) auxResult {
-		return runCatalog(g, id, g.walkObligations())
+		// the adapters belong to C04 too: an iterator that calls yield again after the consumer stopped
+		// panics at run time ("range function continued iteration")
+		return runCatalog(g, id, append(g.walkObligations(), g.adapterShape()...))
 	}
 	propertyAssumptions["C19"] = []string{
 		"the semantics of the documented position language is my reading of the EBNF in the ast package comment (catalog.go: first valid position for ||, first non-nil node for ??, -1 propagation for +, [0]/[$] nil on empty slices)",
@@ -653,7 +655,7 @@ func (g *Gen) adapterShape() []*catOblig {
 		}
 	}
 	add := func(name, want string, ok bool, got string) {
-		ob := &catOblig{Name: "ast." + name + "/adapter-shape", Tags: []string{"C17"}, Detail: want}
+		ob := &catOblig{Name: "ast." + name + "/adapter-shape", Tags: []string{"C17", "C04"}, Detail: want}
 		if fd := funcs[name]; fd != nil {
 			ob.Pos = g.prog.Fset.Position(fd.Pos())
 		}
